@@ -747,6 +747,12 @@ class World:
         self.log_event(inc, "rename", src, "ENOENT")
         raise self._enoent(src)
 
+    def dir_order(self, names):
+        """the order in which a directory lists its entries is the file system's business (hash order, creation
+        order, ...): here a permutation that differs between a run and its reference (keyed by the epoch), the same
+        on replay"""
+        return sorted(names, key=lambda n: hashlib.sha256(("%r/%s" % (self.epoch, n)).encode()).digest())
+
     def sim_listdir(self, path):
         inc = self.current
         self.gate(inc, "listdir", path)
@@ -759,7 +765,7 @@ class World:
             if p.startswith(pre):
                 names.add(p[len(pre):].split("/", 1)[0])
         self.log_event(inc, "listdir", path, "ok", len(names))
-        return sorted(names)
+        return self.dir_order(names)
 
     # -- scheduler ------------------------------------------------------------
     def add_task(self, task):
